@@ -153,23 +153,24 @@ type watcher struct {
 }
 
 type run struct {
-	t      *testing.T
-	tr     *vh.Trace
-	tid    string
-	wr     state.CoreState // writes go here
-	wst    state.CoreState // watches are started here (the same state, or a remote view of it)
-	remote bool
-	retry  bool
-	bb     bool
-	wfs    map[int]*wfaults
-	ctx    context.Context
-	ws     map[int]*watcher // by command slot
-	all    []*watcher
-	nextW  int
-	cookie []byte
-	seen   map[int]state.Bookmark // position -> delivered bookmark bytes
-	seenID map[int]int            // position -> id of the event delivered with it
-	wpos   int                    // number of committed writes
+	t       *testing.T
+	tr      *vh.Trace
+	tid     string
+	wr      state.CoreState // writes go here
+	wst     state.CoreState // watches are started here (the same state, or a remote view of it)
+	remote  bool
+	retry   bool
+	bb      bool
+	wfs     map[int]*wfaults
+	nfaults int
+	ctx     context.Context
+	ws      map[int]*watcher // by command slot
+	all     []*watcher
+	nextW   int
+	cookie  []byte
+	seen    map[int]state.Bookmark // position -> delivered bookmark bytes
+	seenID  map[int]int            // position -> id of the event delivered with it
+	wpos    int                    // number of committed writes
 }
 
 const ns = "n1"
